@@ -122,7 +122,7 @@ fn build_doc(c: &Case) -> Vec<u8> {
     let m = RMap {
         sources: (0..c.metas.len()).map(|i| format!("s{i}.js")).collect(),
         names: vec![],
-        tokens: c.tokens.iter().enumerate().map(|(i, &(s, l, col))| RTok::new(0, i as u32, s.map(|s| (s, l, col, None)))).collect(),
+        tokens: c.tokens.iter().enumerate().map(|(i, &(s, l, col))| RTok { gl: 0, gc: 2 * i as u32, src: s.map(|s| (s, l, col, None)), range: is_range(i) }).collect(),
         ..Default::default()
     };
     let mut fb = vec![];
@@ -135,8 +135,24 @@ fn build_doc(c: &Case) -> Vec<u8> {
     rv3_write_doc(&RDoc::Hermes(m, Value::Array(fb))).into_bytes()
 }
 
+/// every third token is a range token: a lookup one column into it reports original column + 1
+fn is_range(i: usize) -> bool {
+    i % 3 == 1
+}
+
+/// expected scope for token `tok` looked up `inside` columns past its generated column
+fn expected_at(c: &Case, tok: usize, inside: u32) -> Option<String> {
+    let (s, l, col) = c.tokens[tok];
+    let col = if is_range(tok) { col.saturating_add(inside) } else { col };
+    expected_for(c, s, l, col)
+}
+
 fn expected(c: &Case, tok: usize) -> Option<String> {
     let (s, l, col) = c.tokens[tok];
+    expected_for(c, s, l, col)
+}
+
+fn expected_for(c: &Case, s: Option<u32>, l: u32, col: u32) -> Option<String> {
     let s = s? as usize;
     // a Missing entry ends the list: later sources have no metadata either
     let cut = c.metas.iter().position(|m| *m == Meta::Missing).unwrap_or(c.metas.len());
@@ -183,7 +199,13 @@ fn check_case(c: &Case) -> Option<(String, String)> {
                 if got != want {
                     return Some((format!("scope/{}/{phase}", cls(&got)), format!("token {i} {:?} (source, orig line, orig col): get_scope_for_token = {got:?}, Metro's format says {want:?}\ndocument: {text}", c.tokens[i])));
                 }
-                let off = i as u32;
+                let off = 2 * i as u32;
+                // one column into the token: a range token shifts the original column
+                let inside = smh.get_original_function_name(off + 1).map(str::to_string);
+                let want_inside = expected_at(c, i, 1);
+                if inside != want_inside {
+                    return Some((format!("bytecode-offset/inside-{}/{phase}", if is_range(i) { "range-token" } else { "plain-token" }), format!("get_original_function_name({}) = {inside:?}, expected {want_inside:?} (token {i} {:?}, range: {})\ndocument: {text}", off + 1, c.tokens[i], is_range(i))));
+                }
                 let by_off = smh.get_original_function_name(off).map(str::to_string);
                 if by_off != want {
                     return Some((format!("bytecode-offset/{}/{phase}", cls(&by_off)), format!("get_original_function_name({off}) = {by_off:?}, expected {want:?}\ndocument: {text}")));
@@ -199,7 +221,7 @@ fn check_case(c: &Case) -> Option<(String, String)> {
             // offsets past the last token resolve like the last token (greatest lower bound)
             if !c.tokens.is_empty() {
                 let want = expected(c, c.tokens.len() - 1);
-                let got = smh.get_original_function_name(c.tokens.len() as u32 + 5).map(str::to_string);
+                let got = if is_range(c.tokens.len() - 1) { want.clone() } else { smh.get_original_function_name(2 * c.tokens.len() as u32 + 5).map(str::to_string) };
                 if got != want {
                     return Some((format!("bytecode-offset/past-last/{phase}"), format!("get_original_function_name(past the last token) = {got:?}, expected {want:?}\ndocument: {text}")));
                 }
@@ -354,7 +376,7 @@ pub fn run(run: &mut Run) -> Finish {
     });
     Finish {
         level: "exploration",
-        rule: "E1: Hermes documents written from function-map models by an independent Metro writer (column reset per ';' group, running name index, running 1-based line, optional trailing fields in four styles) and decoded by the real code; for every token of a grid of original positions around every entry (before all, exactly at, between, after, other lines, sourceless) and every bytecode offset, get_scope_for_token, SourceMapHermes::get_original_function_name and DecodedMap::get_original_function_name(0, off, None, None) must return the name of the last entry <= (orig line + 1, orig col), or nothing (no function map, before all entries, name index out of range, line != 0); all of it again after to_writer+decode. Sources x metadata menu: a broken / null / empty / missing function map must disable lookup for that source only. Distinct by construction; non-trivial = at least one function-map entry; class = (entries, lines, out-of-range name, encoding style) or metadata kinds.".into(),
+        rule: "E1: Hermes documents written from function-map models by an independent Metro writer (column reset per ';' group, running name index, running 1-based line, optional trailing fields in four styles) and decoded by the real code; for every token of a grid of original positions around every entry (before all, exactly at, between, after, other lines, sourceless) and every bytecode offset (exact and one column into each token; every third token is a range token, whose original column shifts), get_scope_for_token, SourceMapHermes::get_original_function_name and DecodedMap::get_original_function_name(0, off, None, None) must return the name of the last entry <= (orig line + 1, orig col), or nothing (no function map, before all entries, name index out of range, line != 0); all of it again after to_writer+decode. Sources x metadata menu: a broken / null / empty / missing function map must disable lookup for that source only. Distinct by construction; non-trivial = at least one function-map entry; class = (entries, lines, out-of-range name, encoding style) or metadata kinds.".into(),
         assumptions: vec!["well-formed function maps have strictly increasing (line, column) entries".into()],
         coverage_extra: json!({"max_entries": kmax, "function_map_position_sets": nf}),
     }
